@@ -119,6 +119,24 @@ func c19Run(c *core.Ctx) *core.Result {
 		}
 		src.Sort()
 	}
+	// an ordinary file that has the listing's name, below the root: only
+	// the root-level name is the receiver's own
+	nestedListing := ""
+	nr := core.NewRand(core.Mix(c.Seed, "C19-nested-listing-name", c.Index))
+	if nr.P(1, 4) && shape != "fanout" {
+		var dirs []string
+		for _, e := range src.Entries {
+			if e.Type == tree.Dir && e.Path != listingName && !strings.HasPrefix(e.Path, listingName+"/") && src.Get(e.Path+"/"+listingName) == nil {
+				dirs = append(dirs, e.Path)
+			}
+		}
+		if len(dirs) > 0 {
+			nestedListing = core.Pick(nr, dirs) + "/" + listingName
+			src.Put(tree.Entry{Path: nestedListing, Type: tree.File, Perm: 0644, Mtime: 1e18, Data: []byte("an ordinary file below the root, version 2")})
+			src.Sort()
+			r.Count("sources_with_a_nested_file_of_the_listing_name", 1)
+		}
+	}
 	// selector
 	selKind := core.Pick(R, []string{"none", "all", "files", "dirs", "subset", "subset", "subset", "byname"})
 	salt := R.U64()
@@ -148,6 +166,9 @@ func c19Run(c *core.Ctx) *core.Result {
 		if s {
 			selected[e.Path] = true
 		}
+	}
+	if nestedListing != "" && selKind != "none" && nr.P(2, 3) {
+		selected[nestedListing] = true
 	}
 	// close under hard-link sources
 	for _, e := range src.Entries {
@@ -188,6 +209,10 @@ func c19Run(c *core.Ctx) *core.Result {
 	if rmode == "merge" {
 		pk = core.Pick(R, []string{"empty", "listing-file", "listing-symlink", "listing-symlink-inside"})
 	}
+	if nestedListing != "" && rmode == "plain" && nr.P(1, 2) {
+		// into a destination an earlier metadata-only receive has filled
+		pk = "listing-file"
+	}
 	if rmode == "filter-listing" && pk == "listing-dir" {
 		// (a stale non-empty directory of that name that the writer may not
 		// delete makes the call fail: nothing to judge)
@@ -211,6 +236,27 @@ func c19Run(c *core.Ctx) *core.Result {
 		prior.Sort()
 		fixLinksToMissing(prior)
 		mutate(R, prior, R.Range(1, 4), eo)
+	}
+	if nestedListing != "" && pk != "empty" && rmode != "merge" {
+		switch nr.Intn(3) {
+		case 0:
+			// new since the earlier receive
+			prior.Remove(nestedListing)
+		case 1:
+			// changed since
+			if e := prior.Get(nestedListing); e != nil && e.Type == tree.File {
+				e.Data, e.Mtime = []byte("version 1"), 5
+			}
+		}
+		// a stale one where the source has none (its directory stays)
+		for _, e := range prior.Entries {
+			if e.Type == tree.Dir && e.Path != listingName && !strings.HasPrefix(e.Path, listingName+"/") && src.Get(e.Path) != nil && src.Get(e.Path).Type == tree.Dir && src.Get(e.Path+"/"+listingName) == nil && prior.Get(e.Path+"/"+listingName) == nil {
+				prior.Put(tree.Entry{Path: e.Path + "/" + listingName, Type: tree.File, Perm: 0644, Mtime: 5, Data: []byte("stale nested file of that name")})
+				prior.Sort()
+				r.Count("priors_with_a_stale_nested_file_of_the_listing_name", 1)
+				break
+			}
+		}
 	}
 	switch pk {
 	case "listing-file":
